@@ -6,7 +6,9 @@ import time
 from .. import vlib
 from ..vlib import Inconclusive
 
-RULE = ("every history of 4 (thorough: 5) messages of one type (Twalk, Twalkgetattr, Twrite, Tlcreate, Tread) with list / string / "
+RULE = ("every history of 4 (thorough: 5) messages of one type (requests decoded by the server: Twalk, Twalkgetattr, Twrite, Tlcreate, Tread; "
+        "replies decoded by the p9 client: Rreaddir, Rwalk, Rread, the xattr list, Rreadlink - there what every call returned is compared "
+        "with its own reply when it returns and again after every later message of the history) with list / string / "
         "payload lengths from {0, 1, 3} on two connections sharing the process-wide message cache and the buffer pools (long then "
         "short, short then empty, interleaved across connections); every request's elements come from an alphabet unique to it, "
         "a lazy backend read exposes un-cleared buffers; compared: the arguments at the backend and the reply bytes with the "
@@ -23,7 +25,7 @@ def run(tier, seed):
     with vlib.Scratch(prop) as s:
         out = os.path.join(s, "vec.ndjson")
         n = 4 if tier == "quick" else 5
-        cfg = "\n".join(["SPECIFICATION Spec", "CONSTANTS", '  Types = {"Twalk", "Twalkgetattr", "Twrite", "Tlcreate", "Tread"}',
+        cfg = "\n".join(["SPECIFICATION Spec", "CONSTANTS", '  Types = {"Twalk", "Twalkgetattr", "Twrite", "Tlcreate", "Tread", "Rreaddir", "Rwalk", "Rread", "Rxattrlist", "Rreadlink"}',
                          "  Lens = {0, 1, 3}", "  Conns = {1, 2}", "  MaxLen = %d" % n, "CHECK_DEADLOCK FALSE",
                          "INVARIANTS NoCarryOver Dump", ""])
         r = vlib.run_tlc(s, "MC_MsgCache", cfg, workers=1, env={"GEN_OUT": out}, name="msgcache", timeout=1500)
